@@ -77,6 +77,12 @@ func build(entries []ent) ([]byte, error) {
 			declared = zipref.MaxGoMod + 1
 		case "huge-total":
 			declared = zipref.MaxZipFile + 1
+		case "maxint64":
+			declared = 1<<63 - 1
+		case "near-maxint64":
+			declared = 1<<63 - 2
+		case "above-int64":
+			declared = 1 << 63
 		}
 		if e.size == "honest" {
 			w, err := zw.CreateHeader(&zip.FileHeader{Name: e.name, Method: zip.Store})
@@ -264,7 +270,7 @@ func Run(r *fw.Run) {
 	scratch := r.Scratch()
 	r.Bounds["prefix_variants"] = prefixes
 	r.Bounds["paths"] = len(paths)
-	r.Bounds["declared_size_variants"] = []string{"honest", "smaller", "zero", "half", "larger", "huge-gomod", "huge-license", "huge-total"}
+	r.Bounds["declared_size_variants"] = []string{"honest", "smaller", "zero", "half", "larger", "huge-gomod", "huge-license", "huge-total", "maxint64", "near-maxint64", "above-int64"}
 	r.Rule = "every archive of 1..2 entries over (6 prefix variants x 28 paths) and every archive of 3 correctly prefixed entries (quick: over 16 paths, thorough: all 28), each single entry also with every dishonest declared-size variant, and 9 module/version pairs: CheckZip and Unzip on the real archive in a per-case tmpfs sandbox whose target lies three levels deep; oracle: CheckZip == documented restrictions (reference), Unzip succeeds iff CheckZip accepts (honest sizes), dishonest sizes fail, the extracted tree equals the file entries, nothing is created outside the target. non-trivial = archive accepted and extracted"
 	r.Assume = []string{"Linux tmpfs; archive/zip of the standard library reads the archives"}
 	var names []string
@@ -281,7 +287,7 @@ func Run(r *fw.Run) {
 	mk := func(n string) ent { return ent{n, contentOf(n), "honest"} }
 	for i, a := range names {
 		jobs = append(jobs, job{goodMod, goodVers, []ent{mk(a)}})
-		for _, sz := range []string{"smaller", "zero", "half", "larger", "huge-gomod", "huge-license", "huge-total"} {
+		for _, sz := range []string{"smaller", "zero", "half", "larger", "huge-gomod", "huge-license", "huge-total", "maxint64", "near-maxint64", "above-int64"} {
 			e := mk(a)
 			e.size = sz
 			jobs = append(jobs, job{goodMod, goodVers, []ent{e}})
